@@ -14,7 +14,7 @@ import (
 func TestVerif_C20_Sim(t *testing.T) {
 	r := vr.Start(t, "C20", "sim")
 	defer r.Finish()
-	r.Rule = "explicit-state BFS over event histories of the routes scenario (announce/withdraw, session down/up, peer delete/add, API add/delete) and of the FSM scenario; after each history the daemon is stopped WITHOUT the harness draining anything and the synctest bubble must drain (no goroutine left), no panic anywhere; non-trivial = distinct canonical daemon state before shutdown"
+	r.Rule = "explicit-state BFS over event histories of the routes scenario (announce/withdraw, session down/up, peer delete/add, API add/delete) plus a sharp driver with a prefix limit of 1 on one peer (over-limit teardown followed by anything); after each history the daemon is stopped WITHOUT the harness draining anything and the synctest bubble must drain (no goroutine left), no panic anywhere; non-trivial = distinct canonical daemon state before shutdown"
 	if r.ReplayPath() != "" {
 		var rp simReplay
 		if err := r.LoadReplay(&rp); err != nil {
@@ -31,6 +31,16 @@ func TestVerif_C20_Sim(t *testing.T) {
 	}
 	for _, c := range cfgs {
 		simExplore(t, r, simExploreCfg{Scenario: "routes", Arg: "cfg=" + c + ";oracle=none;nodrain", Depth: depth, Budget: budget})
+	}
+	// sharp driver: bot 0 has a prefix limit of 1, two prefixes, session flaps: the over-limit teardown
+	// (Cease/1, administrative down) followed by anything else
+	deep := 4
+	if vr.Thorough() {
+		deep = 6
+	}
+	simExplore(t, r, simExploreCfg{Scenario: "routes", Arg: "cfg=ee;oracle=none;nodrain;maxpfx=1;src=0;flap=0;noapi;nopeers;nvar=1", Depth: deep, Budget: budget})
+	if r.Outcomes["up-did-not-establish"] == 0 && len(r.Violations) == 0 {
+		t.Fatalf("ENGINE-ERROR vacuous: the prefix limit never took a peer down administratively: %v", r.Outcomes)
 	}
 	simConfirm(t, r, 3)
 }
